@@ -10,7 +10,7 @@ TLA = "explicit TLA+ specification + TLC"
 
 CHECKS = {
  "C02": dict(cat="proof", tech="TLA+ tableau specification: order conditions as integer identities discharged by Apalache; bound to the code by tableau extraction (impulse probing of the real steppers) validated by a TLC trace spec",
-   text="Exact rational Butcher tableaux in TLA+ (spec/tableaux, generated from checks/tableaux_gen.py); every rooted-tree order condition up to p (RK4 p=4, RK23 p=3, DOPRI5 p=5), the failing tree of order p+1, the embedded-estimator conditions, and for DOP853 row sums + quadrature conditions within 1e-25 are discharged by Apalache; the coefficients the real steppers apply (c, A, b, error-estimator sums, source constants) are extracted by probing and compared with the specification to <=1 ulp by a TLC trace spec - on plain steps, on the shortened landing step, on the accepted retry after a rejected attempt and with dense_output off. Radau IIA: the nodes as roots of 10c^2-8c+1 (bracketed to 1e-30) and R(z) as the (2,3) Pade approximant of exp are Apalache identities; every Newton triple of recorded runs evaluates at x+c_i h (3 ulp), y'=t^k (k<=4) is integrated exactly, and every accepted step of adaptive runs on y'=lambda*y equals R(h*lambda) in exact rational arithmetic (1.2e-10 relative).",
+   text="Exact rational Butcher tableaux in TLA+ (spec/tableaux, generated from checks/tableaux_gen.py); every rooted-tree order condition up to p (RK4 p=4, RK23 p=3, DOPRI5 p=5), the failing tree of order p+1, the embedded-estimator conditions, and for DOP853 row sums + quadrature conditions within 1e-25 are discharged by Apalache; the coefficients the real steppers apply (c, A, b, error-estimator sums, source constants) are extracted by probing and compared with the specification to <=1 ulp by a TLC trace spec - on plain steps, on the shortened landing step, on the accepted retry after a rejected attempt and with dense_output off. Radau IIA: the nodes as roots of 10c^2-8c+1 (bracketed to 1e-30) and R(z) as the (2,3) Pade approximant of exp are Apalache identities; every Newton triple of recorded runs evaluates at x+c_i h (3 ulp), y'=t^k (k<=4) is integrated exactly, and every accepted step of adaptive runs on y'=lambda*y equals R(h*lambda) in exact rational arithmetic (1.2e-10 relative). Recorded Radau runs of every family (Trace_Stepper clauses C02/radau_nodes, C02/radau_converged): the three evaluations of each Newton iteration lie at the Radau IIA nodes of one attempted step, and an accepted step comes out of an iteration that converged (the latter exposed and now guards repair 29daa34).",
    note="NOT decided: the ~190 remaining DOP853 tree conditions of order <=8 (literature), the tol^(-1/q) growth law, Radau's order on nonlinear problems, BDF (numeric). Trusted: Apalache/Z3, TLC, the generator's expansion tree -> integer identity, python Fraction arithmetic for float->rational distances.",
    ref="5 (C02), 3.4"),
  "C03": dict(cat="model_checking", tech=TLA + " (stepper/handler state machines, implementation-shaped loop models of all six steppers (Radau.tla, Bdf.tla, Dopri.tla)) with trace validation of recorded solve_ivp runs and replay of TLC-generated handler scenarios",
